@@ -31,8 +31,20 @@ OPS = {
 }
 
 
+THOROUGH = {"on": False}
+
+
 def _scenarios(cls: str, op: str) -> List[Scenario]:
     out = []
+    if THOROUGH["on"] and op != "merge":
+        # every entry point x {explicit list, None} for the optional list argument x {explicit, None} tactic order
+        for m in OPS[op]:
+            for keep in ("set", "none"):
+                for tn in (False, True):
+                    if tn and not m.endswith("_tactics"):
+                        continue
+                    out.append(Scenario(cls, m, keep=keep, tactics_none=tn))
+        return out
     for m in OPS[op]:
         if op == "merge":
             out.append(Scenario(cls, m))
